@@ -40,6 +40,36 @@ template <class D> static void sweep(const char* name, long yearsBack, long year
   for (prev(c), --day; c.y > 1970 - yearsBack; prev(c), --day) { check<D>(day, c, 0, 0, zero); check<D>(day, c, 86399, 0, zero); if (fracTicks) check<D>(day, c, 45296, fracTicks, fracText); }
   printf("RESULT %s evaluations=%ld failures=%ld range=every day of years %ld..%ld, 2-3 times of day, render + parse back\n", name, evals, fails, 1970 - yearsBack, 1970 + yearsFwd);
 }
+// ---- sparse sweep over the WHOLE representable range (far years): independent closed-form calendar in __int128 ----
+typedef __int128 mint;
+static mint fdiv(mint a, mint b) { return a >= 0 ? a / b : -((-a + b - 1) / b); }
+static bool leap128(mint y) { return y - 4 * fdiv(y, 4) == 0 && (y - 100 * fdiv(y, 100) != 0 || y - 400 * fdiv(y, 400) == 0); }
+static mint days_before_year(mint y) { return 365 * y + fdiv(y + 3, 4) - fdiv(y + 99, 100) + fdiv(y + 399, 400) - 719528; }   /* days from 1970-01-01 to Y-01-01 */
+static void civil_of_day(mint day, mint& y, int& m, int& d) {
+  mint lo = fdiv(day * 400, 146097) + 1970 - 2, hi = lo + 4; while (days_before_year(lo) > day) lo -= 1; while (days_before_year(hi) <= day) hi += 1;
+  while (hi - lo > 1) { mint mid = lo + (hi - lo) / 2; if (days_before_year(mid) <= day) lo = mid; else hi = mid; } y = lo;
+  mint rest = day - days_before_year(y); static const int t[] = {31, 28, 31, 30, 31, 30, 31, 31, 30, 31, 30, 31}; m = 1;
+  for (int i = 0; i < 12; i++) { int dm = t[i] + (i == 1 && leap128(y) ? 1 : 0); if (rest < dm) { m = i + 1; break; } rest -= dm; } d = (int)rest + 1; }
+static std::string year_text(mint y) { bool neg = y < 0; unsigned long long a = (unsigned long long)(neg ? -y : y); char b[40]; snprintf(b, sizeof b, "%s%04llu", neg ? "-" : (y > 9999 ? "+" : ""), a); return b; }
+template <class D> static void far_sweep(const char* name, long samples, bool only_lowest_day = false) {
+  cur = name; evals = 0; fails = 0; const mint num = D::period::num, den = D::period::den;   /* tick = num/den seconds, den == 1 here */
+  unsigned long long x = 0x9E3779B97F4A7C15ull;
+  for (long i = 0; i < samples; i++) { x ^= x << 13; x ^= x >> 7; x ^= x << 17; long c = (long)x; if (i < 64) c = (i & 1) ? INT64_MAX - (i >> 1) : INT64_MIN + (i >> 1);
+    mint secs = (mint)c * num / den; if ((mint)c * num % den) continue; mint day = fdiv(secs, 86400); long sod = (long)(secs - day * 86400); mint y; int m, d; civil_of_day(day, y, m, d);
+    char tail[32]; snprintf(tail, sizeof tail, "-%02d-%02dT%02d:%02d:%02dZ", m, d, (int)(sod / 3600), (int)(sod % 3600 / 60), (int)(sod % 60)); std::string exp = year_text(y) + tail;
+    /* the lowest representable day: days*86400 alone is below INT64_MIN, the parser refuses these representable instants (known finding KF-C15-lowest-day-parse, checked by the far_kf_* entries) */
+    bool lowest_day = (day * 86400) * den < (mint)INT64_MIN * num; if (lowest_day != only_lowest_day) continue;
+    time_point<system_clock, D> tp{D(c)}; ++evals; std::string text;
+    /* day counts within 719468 of the maximum cannot be shifted to the algorithm's epoch: reported, not rendered */
+    bool too_far = day > (mint)INT64_MAX - 719468;
+    try { text = Convert::To<std::string>(tp); if (too_far) { fail("count " + std::to_string(c) + " rendered '" + text + "' although its day number cannot be shifted to the calendar epoch"); continue; } }
+    catch (const std::out_of_range& e) { if (!too_far) fail(std::string("render raised ") + e.what() + " for count " + std::to_string(c)); continue; }
+    catch (const std::exception& e) { fail(std::string("render raised ") + e.what() + " for count " + std::to_string(c)); continue; }
+    if (text != exp) { fail("count " + std::to_string(c) + " rendered '" + text + "' expected '" + exp + "'"); continue; }
+    try { auto back = Convert::To<time_point<system_clock, D>>(text); if (back != tp) fail("'" + text + "' parsed back to " + std::to_string(back.time_since_epoch().count()) + " instead of " + std::to_string(c)); }
+    catch (const std::exception& e) { fail("'" + text + "' does not parse back: " + e.what()); } }
+  printf("RESULT %s evaluations=%ld failures=%ld range=%ld pseudo-random instants over the whole int64 range + the 64 extreme counts, render + parse back, against a closed-form __int128 calendar\n", name, evals, fails, samples);
+}
 int main(int argc, char** argv) {
   const char* which = argc > 1 ? argv[1] : ""; bool thorough = argc > 2 && !strcmp(argv[2], "thorough");
   long back = thorough ? 31970 : 12370, fwd = thorough ? 98030 : 18030;   // quick: -10400..+20000 ; thorough: -30000..+100000
@@ -50,6 +80,13 @@ int main(int argc, char** argv) {
   else if (!strcmp(which, "cal_min")) sweep<minutes>("cal_min", back, fwd, "", 0);
   else if (!strcmp(which, "cal_h")) sweep<hours>("cal_h", back, fwd, "", 0);
   else if (!strcmp(which, "cal_d")) sweep<days_t>("cal_d", back, fwd, "", 0);
+  else if (!strcmp(which, "far_s")) far_sweep<seconds>("far_s", thorough ? 20000000 : 2000000);
+  else if (!strcmp(which, "far_min")) far_sweep<minutes>("far_min", thorough ? 20000000 : 2000000);
+  else if (!strcmp(which, "far_h")) far_sweep<hours>("far_h", thorough ? 20000000 : 2000000);
+  else if (!strcmp(which, "far_d")) far_sweep<days_t>("far_d", thorough ? 20000000 : 2000000);
+  else if (!strcmp(which, "far_kf_s")) far_sweep<seconds>("far_kf_s", 64, true);
+  else if (!strcmp(which, "far_kf_min")) far_sweep<minutes>("far_kf_min", 64, true);
+  else if (!strcmp(which, "far_kf_h")) far_sweep<hours>("far_kf_h", 64, true);
   else { puts("unknown job"); return 2; }
   return 0;
 }
